@@ -145,7 +145,7 @@ theorem env_overlay (parent overlay : Env) (k : String) :
   unfold mergeEnv Env.get
   rw [lookup_append', lookup_map_val parent (fun k v => (List.lookup k overlay).getD v) k,
     lookup_filter_new]
-  unfold Env.hasKey Env.get
+  unfold Env.hasKey
   cases hp : parent.lookup k <;> cases ho : overlay.lookup k <;> simp
 
 /-- empty values are values: an overlay entry `k=""` yields `k=""` in the child (it neither
